@@ -2939,3 +2939,50 @@ func ruleReadOnlyExports(c *eng.Ctx) {
 		}
 	}
 }
+
+// R17.11 [C17]
+func ruleMarkdownBlanksCovered(c *eng.Ctx) {
+	const R = "R17.11-MARKDOWN-BLANKS-COVERED"
+	c.Rule(R, "the Markdown and text writers of the xlsx reader consult the merge state of the cells they write: the value of a data cell is written under a test that lets only unmerged cells and merge roots through, so a covered cell of a merged region comes out blank instead of showing a stale stored value", 2, 0)
+	for _, name := range []string{"xlsx.(*Reader).MarkdownWithOptions", "xlsx.(*Reader).TextWithOptions"} {
+		root := c.P.Func(name)
+		if root == nil {
+			c.Undec(R, name, token.NoPos, "anchor not found")
+			continue
+		}
+		guarded := false
+		for _, fn := range eng.Cluster(root, 2) {
+			if fn.Pkg != root.Pkg {
+				continue
+			}
+			facts := eng.MustCross(fn, func(e eng.Edge) bool {
+				return eng.AnyEdgeFact(e, func(f eng.Fact) bool {
+					fr, ok := eng.LoadOfField(f.Cond)
+					if !ok {
+						if fl, isF := f.Cond.(*ssa.Field); isF {
+							fr, ok = eng.AsField(fl)
+						}
+					}
+					if !ok {
+						return false
+					}
+					return (fr.Field == "IsMerged" && !f.Pos) || (fr.Field == "IsMergeRoot" && f.Pos)
+				})
+			}, nil)
+			eng.Instrs(fn, false, func(in ssa.Instruction) {
+				var fr eng.FieldRef
+				ok := false
+				switch x := in.(type) {
+				case *ssa.FieldAddr:
+					fr, ok = eng.AsField(x)
+				case *ssa.Field:
+					fr, ok = eng.AsField(x)
+				}
+				if ok && fr.Field == "Value" && strings.HasSuffix(fr.Struct, "xlsx.Cell") && eng.InLoop(in.Block()) && facts[in.Block()] {
+					guarded = true
+				}
+			})
+		}
+		c.Check(guarded, R, name, root.Pos(), "cell values are written under the merge test", "no cell value is written under a test of IsMerged/IsMergeRoot any more: covered cells of merged regions show their stale stored values")
+	}
+}
